@@ -196,9 +196,14 @@ def run_scenario(scn: dict, *, eager: bool = False) -> dict:
             nsc[0] += 1
             n = nsc[0] + 1          # the task's own scope is n = 1
             kind = {"open": "plain", "openf": "fail", "openm": "move"}[c]
-            pre, cl = d % 2, d // 2
+            pre, cl, via_setter = d % 2, (d // 2) % 4, d // 8
             cm = None
-            if c == "open":
+            if c == "open" and via_setter:
+                scope = anyio.CancelScope(shield=bool(a))
+                scope.deadline = math.inf if b >= INF else b      # assigned before the scope is entered
+                if pre:
+                    scope.cancel()
+            elif c == "open":
                 scope = anyio.CancelScope(shield=bool(a), deadline=math.inf if b >= INF else b)
                 if pre:
                     scope.cancel()
